@@ -23,9 +23,9 @@ TEXT = {
         'design_ref': 'DESIGN.md §4 C17',
     },
     'C11': {
-        'text': 'Partial: the fixed-key AES seed stream offset logic, for every 64-bit block counter and boundary in-block offsets, bounded in read length; Prng::into_new_field stream continuity.',
-        'note': 'Rejection sampling and buffer refill in Prng::get are decided in the thorough tier only (bounded: 16/20-byte look-ahead buffers). NOT decided: absorb order of the hash-based XOF constructors, Field255 sampling.',
-        'technique': 'function contract on the real fill() with the block hash uninterpreted (Kani/CBMC)',
+        'text': 'Partial: the fixed-key AES seed stream offset logic, for every 64-bit block counter and boundary in-block offsets, bounded in read length (Kani); Prng::get / from_seed_stream / into_new_field for every buffer length, byte offset, number of rejections and refills over an abstract seed stream (Verus, loop invariants, no bound): the first accepted chunk is returned and nothing of the stream is skipped or repeated.',
+        'note': 'The thorough tier repeats the Prng::get contract on the compiled code with Kani (bounded: 16/20-byte look-ahead buffers). Termination of rejection sampling is not claimed. NOT decided: absorb order of the hash-based XOF constructors, Field255 sampling.',
+        'technique': 'function contract on the real fill() with the block hash uninterpreted (Kani/CBMC) + loop invariants on the extracted Prng::get over an abstract stream (Verus)',
         'design_ref': 'DESIGN.md §4 C11',
     },
     'C06': {
@@ -83,9 +83,9 @@ TEXT = {
         'design_ref': 'DESIGN.md §4 C05',
     },
     'C18': {
-        'text': 'Partial: transcript binding. The real generic Prio3 derivation functions are instantiated with a recording XOF; Kani proves for all keys/contexts(<=2 bytes)/nonces/ids that each derivation absorbs exactly the specified (seed, tag||ctx, binder) transcript, so a derivation that ignores ctx, nonce, aggregator id, num_proofs, algorithm id or a joint-randomness part fails a named obligation.',
+        'text': 'Partial: transcript binding. Verus proves on the extracted XofTurboShake128::from_seed_slice / Xof::seed_stream (abstract sponge with a ghost absorb log, unbounded in the number and length of parts) that every dst and binder byte is absorbed, in order, behind a length prefix. The real generic Prio3 derivation functions are instantiated with a recording XOF; Kani proves for all keys/contexts(<=2 bytes)/nonces/ids that each derivation absorbs exactly the specified (seed, tag||ctx, binder) transcript, so a derivation that ignores ctx, nonce, aggregator id, num_proofs, algorithm id or a joint-randomness part fails a named obligation.',
         'note': 'Rejection under mismatch follows from the transcripts only under the random-oracle assumption on the XOF. Inline derivations of shard_with_random/verify_init, the binder each Poplar1 call site passes to init_prng, and IDPF bindings are not decided (CBMC cost, bitvec); Poplar1::init_prng and its tag are.',
-        'technique': 'ghost transcript (recording Xof implementation) + postconditions on the real derive_* functions (Kani)',
+        'technique': 'ghost transcript (recording Xof implementation) + postconditions on the real derive_* functions (Kani); ghost absorb log + loop invariants on the extracted XOF constructors (Verus)',
         'design_ref': 'DESIGN.md §4 C18',
     },
     'C02': {
